@@ -137,15 +137,23 @@ func (k *wk) allocNow() uint64 {
 	return k.sample[0].Value.Uint64()
 }
 
-// settle waits until the goroutine count is back at g0 or the grace period is over.
+// settle waits until the goroutine count is back at g0 or the grace period is
+// over.  The period is measured in wall time AND in turns of this loop: every
+// turn yields the processor, so a goroutine that is merely waiting to run (on
+// a machine that starves the whole process) gets its chance; one that is still
+// there after the period and 150 turns is not runnable.
 func settle(g0 int, grace time.Duration) int {
 	g := runtime.NumGoroutine()
 	if g <= g0 {
 		return g
 	}
-	deadline := time.Now().Add(grace)
+	start := time.Now()
 	d := 20 * time.Microsecond
-	for g > g0 && time.Now().Before(deadline) {
+	for turns := 0; g > g0; turns++ {
+		el := time.Since(start)
+		if (el >= grace && turns >= 150) || el >= 20*grace {
+			break
+		}
 		runtime.Gosched()
 		time.Sleep(d)
 		if d < 5*time.Millisecond {
